@@ -172,6 +172,10 @@ class NpShim:
         n = len(buf)
         if n % w != 0:
             raise ValueError("buffer size must be a multiple of element size")
+        if isinstance(buf, (bytes, bytearray)):
+            if len(buf) != 0:
+                raise TypeError("NpShim: concrete non-empty bytes in symbolic mode")
+            return AArr((0,), w, lambda idx, b: ZERO)
         f = _tagfn(buf)
         return AArr((n // w,), w, lambda idx, b: f(idx[0] * w + b))
 
